@@ -65,6 +65,14 @@ fn store_fn_info_in_state(
     Ok(())
 }
 
+/// Returns the number of function calls currently in progress.
+pub(crate) fn get_call_depth(state: &mut HashMap<String, StateValue>) -> usize {
+    let fn_state = get_core_sub_state_for_command(state, FUNCTION_STATE_KEY.to_string());
+    let call_info_stack = get_list(CALL_STACK_STATE_KEY.to_string(), fn_state);
+
+    call_info_stack.len()
+}
+
 fn get_fn_info_from_state(
     state: &mut HashMap<String, StateValue>,
     name: &str,
